@@ -9,21 +9,22 @@ PROP = 'C04'
 LEAN_MODULES = ['PMV.Lemmas.Bcast', 'PMV.Lemmas.DispatchRules', 'PMV.Lemmas.DotFull', 'PMV.Props.C04', 'PMV.Props.C04Matrix']
 PARALLEL = True
 MANIFEST = {
-    'text': 'Kernel-checked theorems (PMV/Lemmas/Bcast.lean, PMV/Props/C04.lean) about a code-shaped Lean model of the '
-            'operator dispatch of qube.py:2879-3744 (number fast path, as_this_type/as_scalar conversion, units/numer/denom '
-            'checks, _mul_by_scalar/_div_by_scalar axis alignment by inserting unit axes, swap-and-retry, matrix path '
-            'through dot, Boolean.as_int, reflected forms): the broadcast loop equals NumPy\'s rule, aligned full '
-            'broadcasting is leading-axis-only broadcasting (no bound on rank or axis lengths), every result element is '
-            'the reference operator applied to the operand elements selected by leading-axis broadcasting, the item '
-            'index passes through unchanged, class/kind/shape rules, rejection iff incompatible with ValueError/TypeError, '
-            'reflected = direct. Tied to /repo on every run: the same operands go to the real polymath code and to the '
-            'compiled model and the canonical observations (exception enum | class, kind, shapes, exact values) are '
+    'text': 'Kernel-checked theorems (PMV/Lemmas/Bcast.lean, DispatchRules.lean, DotFull.lean, PMV/Props/C04.lean, C04Matrix.lean) '
+            'about a code-shaped Lean model of the operator dispatch of qube.py:2879-3744 and its overrides: dispatch_spec '
+            '(for every operator, every ordered pair of operand kinds and every direct / reflected / Boolean path the code-shaped '
+            'dispatch equals a declarative specification on LEADING shapes), reject_iff (raises iff incompatible, with '
+            'ValueError/TypeError; accepted results have the NumPy broadcast of the leading shapes and the operand item shape), '
+            'value_ref for +,-,*,//,% in every alignment branch and for the matrix path (step-by-step dot = index sum over the '
+            'items selected by leading-axis broadcasting), the broadcast loop = NumPy rule, item axes never broadcast, '
+            'class/kind rules, reflected = direct for all operators; no bound on rank or axis lengths. Tied to /repo on every '
+            'run: the same operands go to the real polymath code and to the compiled model and the canonical observations are '
             'diffed; a plain-NumPy loop reference judges the real code directly.',
     'design': 'DESIGN.md §3 C04, DESIGN.d/C04.md',
-    'technique': 'Lean 4 proof (induction over shapes/indices) + model/code correspondence + NumPy loop oracle',
-    'note': 'Trusted: Lean kernel; hand-written model Model/Dispatch.lean (checked against the code by the '
-            'correspondence run); IEEE rounding is not modelled (exact dyadic operands for + - * // %, tolerance 1e-12 '
-            'in the oracle for / ** and the math functions).',
+    'technique': 'Lean 4 proof (induction over shapes/indices, case analysis over the dispatch table) + model/code '
+                 'correspondence + NumPy loop oracle',
+    'note': 'Trusted: Lean kernel; hand-written model Model/Dispatch.lean (checked against the code by the correspondence run); '
+            'IEEE rounding is not modelled (exact dyadic operands for + - * // %, tolerance 1e-12 in the oracle for / ** and '
+            'the math functions). C04Matrix.lean reuses C16\'s dot_eq_einsum.',
 }
 RULE = ('ordered pairs of operand kinds (8 classes, Python int/float/bool, ndarray, MaskedArray, nested list) x numeric '
         'kinds x leading-shape pairs (compatible or not; quick: a table of trouble spots plus a sample, thorough: all '
@@ -35,8 +36,8 @@ ASSUMPTIONS = [
     'true division, ** and the math functions are compared with relative tolerance 1e-12 in the oracle only',
     'masks are not judged here (C01): positions masked in the result or expected to be masked are not compared',
     'quaternion products, matrix inverse (matrix / matrix), vector norm (abs of a vector) and integer powers of '
-    'matrices/quaternions are judged under C16; Matrix3 * Scalar (documented "returns the same Scalar") is modelled as the '
-    'code does and not judged',
+    'matrices/quaternions are judged under C16; unit rules of the math functions and unit powers under C12',
+    'operand descriptors are well formed (WF): item shape consistent with the class, raw operands carry no units',
     'derivatives and result units are outside this view (C06, C12)',
 ]
 TRUSTED_EXTRA = ['NumPy elementwise arithmetic and broadcasting (the model\'s Arr.map2 / bidx is compared with it on every run)']
@@ -60,7 +61,9 @@ def impl(case):
     try:
         r = R.run(case)
     except Exception as e:
-        return C.exc_name(e)
+        # "rejected with ValueError/TypeError": either class is a rejection (subclasses such as NumPy's UFuncTypeError
+        # included); anything else keeps its name and is flagged by the oracle
+        return 'Rejected' if isinstance(e, (ValueError, TypeError)) else C.exc_name(e)
     # ** and the math functions: when no element is observable (every position blank) the kind is not reported
     kindless = case['op'] in META_ONLY and all(blank or [])
     return R.observe(r, scale_of(case), blank, kindless)
